@@ -54,7 +54,7 @@ never reads the time stamps — per collector entry the rate in force and the ti
 time it was last settled (created, deposited into, withdrawn from, accrued, swept) — bounds the whole units a call credits to a
 locker by `balance · ((1+r)^⌊y⌋·(1+r·frac y) − 1)` (≥ the exact formula, computed in rationals, plus float slack and the carried
 fraction) over the interval from max(last rate update, last settlement) to now at the rate in force, and by 0 while the rate is
-zero. Suffix `_touched`: the locker was deposited into / withdrawn from while the rate was zero (reproduced defect D35, notes/C18.md).
+zero. Suffix `_touched`: the locker was deposited into / withdrawn from while the rate was zero (reproduced defect D45, notes/C18.md).
 -/
 -- DRIVER: prefix=lk ns=Comdex.Drv.Locker
 namespace Comdex.Drv.Locker
@@ -447,7 +447,7 @@ def applyOp (st : St) (seq : String) (ctx : Ctx) (opT : OpT) (pis : List (Option
          | some r' => if ok && norm r' == norm r && (m.map norm) != some (norm r) then some r' else m
          | none => m)
       | _ => m
-    -- deposit / withdraw at rate zero are also accepted in their repaired form (D35, notes/C18.md: the locker keeps the flag
+    -- deposit / withdraw at rate zero are also accepted in their repaired form (D45, notes/C18.md: the locker keeps the flag
     -- `BlockHeight = 0`)
     let m := match opT with
       | .deposit _ a b i _ _ | .withdraw _ a b i _ _ =>
